@@ -23,6 +23,7 @@ CapsOf(p) == CASE p = "p1" -> {<<"f", "a">>}
                [] p = "p3" -> {<<"f", "a">>, <<"g", "a">>}
                [] p = "p4" -> {<<"g", "a">>}
                [] p = "p5" -> {<<"f", "a">>, <<"f", "b">>}
+               [] p = "p6" -> {<<"g", "a">>}
                [] p = "bad" -> {<<"f", "zzz">>}
                [] p = "bad2" -> {<<"g", "#nope">>}
 AllCapPairs == UNION {CapsOf(p) : p \in Probes}
